@@ -18,7 +18,7 @@ pub fn def() -> PropDef {
         run_unit,
         replay,
         required_probes: &["Fmt_Exponential", "Fmt_Dotless", "Fmt_FullScale", "Parse_Exponent", "Parse_DotInside", "FromF_PowNeg"],
-        rule: "seeded decimals of 1..400 digits with scales -150000..150000 (+-1, +-2 around the limit, and i64 extremes), zeros with positive and negative scales, one value per Display notation class; each through the default string form (to_string / from_str / to_value / from_value), the json_num adapter and the json_num_option adapter (Some / None / null); JSON documents: numbers of 1..2000 digits with fractions, exponents, leading '-', 'E+', quoted numerals, and malformed documents; serde token streams of every integer width (i8..i128, u8..u128 incl. MIN/MAX), f32/f64 (exact binary value), str / String / borrowed str. Oracles: round trip is value-equal (digits and scale identical where Display preserves them), JSON number text is read to exactly the (digits, scale) an independent recogniser reads, json_num rejects exactly |scale| > limit, malformed input is Err and never a panic. distinct = distinct cases; non-trivial = non-zero decimals / documents containing a digit",
+        rule: "seeded decimals of 1..400 digits with scales -150000..150000 (+-1, +-2 around the limit, and i64 extremes), zeros with positive and negative scales, one value per Display notation class; each through the default string form (to_string / from_str / to_value / from_value), the json_num adapter and the json_num_option adapter (Some / None / null); JSON documents: numbers of 1..2000 digits with fractions, exponents, leading '-', 'E+', quoted numerals, quoted numerals padded with white space (which are not numerals), and malformed documents; serde token streams of every integer width (i8..i128, u8..u128 incl. MIN/MAX), f32/f64 (exact binary value), str / String / borrowed str. Oracles: round trip is value-equal (digits and scale identical where Display preserves them), JSON number text is read to exactly the (digits, scale) an independent recogniser reads, json_num rejects exactly |scale| > limit, malformed input is Err and never a panic. distinct = distinct cases; non-trivial = non-zero decimals / documents containing a digit",
     }
 }
 
@@ -133,13 +133,16 @@ fn gen_decimal(r: &mut Rng) -> Dec {
 }
 
 fn gen_document(r: &mut Rng) -> String {
-    const MALFORMED: &[&str] = &["nan", "NaN", "1e", "-", "[1]", "{}", "true", "null", "\"abc\"", "1e999999999999", "01", "1.", ".5", "+1", "1_000", "0x10", "", " ", "1 2", "--1", "1e+", "\"\"", "\"1e\"", "\"+-1\"", "Infinity", "-Infinity", "1e9223372036854775808", "-1e-9223372036854775809", "\"1e9223372036854775808\"", "1.5.5", "1e5.5"];
+    const MALFORMED: &[&str] = &["nan", "NaN", "1e", "-", "[1]", "{}", "true", "null", "\"abc\"", "1e999999999999", "01", "1.", ".5", "+1", "1_000", "0x10", "", " ", "1 2", "--1", "1e+", "\"\"", "\"1e\"", "\"+-1\"", "Infinity", "-Infinity", "1e9223372036854775808", "-1e-9223372036854775809", "\"1e9223372036854775808\"", "1.5.5", "1e5.5",
+        // quoted strings that are not numerals: padded with white space (ASCII, escaped, no-break), inner space, other radix, non-ASCII digits
+        "\" 1\"", "\"1 \"", "\" 1 \"", "\"\\t1\"", "\"1\\n\"", "\"1 2\"", "\"0x10\"", "\"1e5.5\"", "\"\\u00a01\"", "\"1\\u2003\"", "\"\u{661}\u{662}\"", "\" -1.5e3\"", "\"-1.5e3 \""];
     match r.below(10) {
         0 | 1 => r.pick(MALFORMED).to_string(),
         2 => {
             // quoted numeral (string form), including forms only the string parser accepts
             let inner = match r.below(4) { 0 => format!("+{}", r.range(0, 999)), 1 => format!(".{}", r.range(0, 999)), 2 => format!("1_000.{}", r.range(0, 99)), _ => gen_number_text(r) };
-            format!("\"{}\"", inner)
+            // one in six padded with a blank on either side: not a numeral any more
+            match r.below(12) { 0 => format!("\" {}\"", inner), 1 => format!("\"{} \"", inner), _ => format!("\"{}\"", inner) }
         }
         _ => gen_number_text(r),
     }
